@@ -510,11 +510,12 @@ pub fn judge(sc: &Scenario) -> Judgement {
             format!("graceful termination but the output ends with a truncated frame of {} bytes", rec.trailing.len()),
         );
     }
-    // notifications sent to the client are only ever publishDiagnostics
+    // server-to-client notifications other than publishDiagnostics are not forbidden by the
+    // property; they are only recorded
     for f in &rec.frames {
         if let RxMsg::Notification { method, .. } = &f.msg {
             if method != "textDocument/publishDiagnostics" {
-                j.violate(ID, "no-invented-message", "no-invented-message".into(), format!("unexpected notification {method}"));
+                j.probe("server sent a notification other than publishDiagnostics", 1);
             }
         }
     }
